@@ -81,7 +81,7 @@ func runC01(c *Ctx) {
 		c.evalPE("fixture:"+name, b)
 	}
 	n := c.N(250, 5000)
-	flips := c.N(14, 60)
+	flips := c.Bound(14, 60)
 	for i := 0; i < n; i++ {
 		spec := genPESpec(rng, c.Bound(120, 600))
 		if i < 8 {
